@@ -132,7 +132,8 @@ def run(ctx):
     ctx.lean_obligations("SevenZ.Props.C11")
     streams_aes.run(ctx)
     chains = [("AES", [])] + [(lab, f) for lab, f in arclib.chains() if histories.supported(arclib.with_aes(f), "x")]
-    passwords = ["secret", "", "pässwörd", "パスワード", "\U0001F511key", "a" * 70]
+    streams_aes.run_km(ctx)
+    passwords = streams_aes.PASSWORDS
     n = len(chains) * (3 if ctx.thorough else 1)
     jobs, meta = [], []
     for i in range(n):
@@ -230,7 +231,7 @@ def run(ctx):
             if a1[32:32 + min(o1, 64)] == a2[32:32 + min(o1, 64)] and o1 >= 16:
                 ctx.fail("C11:ciphertext_reuse", "two archives of the same input and password share ciphertext", conf)
         # ---- password outcomes
-        wrongs = [None, pw + "x", pw[:-1] if pw else "nonempty", pw.swapcase() if pw.swapcase() != pw else pw + "́", "totally different"]
+        wrongs = streams_aes.equivalents(pw) + [None, pw + "x", pw[:-1] if pw else "nonempty", pw.swapcase() if pw.swapcase() != pw else pw + "́", "totally different"]
         reads.append((a1, pw))
         rmeta.append((conf, "right", members, encrypted_header))
         for w in wrongs:
